@@ -217,8 +217,29 @@ Lemma fwd_streams_ok ms : forall l strs strs' out,
 Proof.
   induction l as [|[id sq] l IH]; intros strs strs' out Hok Hinj Hinv H; cbn [fwd_streams] in H.
   - injection H as <- <-. split; [exact Hinv|constructor].
-  - destruct (pop_messages (reasm (get_stream strs id)) (uint16_add sq 1)) as [[l2 seq2] o1] eqn:Ep.
+  - destruct (pop_messages (reasm (get_stream strs id)) _) as [[l2 seq2] o1] eqn:Ep.
     destruct (fwd_streams (set_stream strs id (mkStream l2 seq2)) l) as [strs2 o2] eqn:Ef.
+    injection H as <- <-.
+    assert (Hg : incl (reasm (get_stream strs id)) (all_chunks ms)).
+    { destruct (get_stream_in strs id) as [Hin| ->]; [now apply (Hinv id)|intros x []]. }
+    apply IH in Ef; auto.
+    + destruct Ef as [Hinv2 Ho2]. split; [exact Hinv2|].
+      unfold msgs_sent. apply Forall_app. split; [|exact Ho2].
+      apply pop_messages_yields in Ep. eapply yields_sent; eauto.
+    + intros id' st Hin. apply set_stream_in in Hin as [[-> ->]|Hin]; [|now apply (Hinv id')].
+      cbn [reasm]. apply pop_messages_retains in Ep. eapply incl_tran; eauto.
+Qed.
+
+Lemma repop_streams_ok ms : forall l strs strs' out,
+  Forall sent_ok ms -> tsn_inj (all_chunks ms) ->
+  (forall id st, In (id, st) strs -> incl (reasm st) (all_chunks ms)) ->
+  repop_streams strs l = (strs', out) ->
+  (forall id st, In (id, st) strs' -> incl (reasm st) (all_chunks ms)) /\ msgs_sent ms out.
+Proof.
+  induction l as [|[id sq] l IH]; intros strs strs' out Hok Hinj Hinv H; cbn [repop_streams] in H.
+  - injection H as <- <-. split; [exact Hinv|constructor].
+  - destruct (pop_messages (reasm (get_stream strs id)) _) as [[l2 seq2] o1] eqn:Ep.
+    destruct (repop_streams (set_stream strs id (mkStream l2 seq2)) l) as [strs2 o2] eqn:Ef.
     injection H as <- <-.
     assert (Hg : incl (reasm (get_stream strs id)) (all_chunks ms)).
     { destruct (get_stream_in strs id) as [Hin| ->]; [now apply (Hinv id)|intros x []]. }
@@ -252,10 +273,14 @@ Proof.
   destruct (fwd_streams (streams s) strs) as [strs2 o] eqn:Ef.
   pose proof (prune_all_ok (all_chunks ms) cum strs2) as Hp.
   destruct (prune_all strs2 cum) as [strs3 pruned]. cbn [fst] in Hp.
+  destruct (repop_streams strs3 strs) as [strs4 o'] eqn:Er.
   intros [= <- <-].
   apply fwd_streams_ok with (ms := ms) in Ef; auto.
-  destruct Ef as [H2 Ho]. split; [|exact Ho].
-  intros id st Hin. cbn [streams] in Hin. now apply (Hp H2 id).
+  destruct Ef as [H2 Ho].
+  apply repop_streams_ok with (ms := ms) in Er; auto.
+  - destruct Er as [H4 Ho']. split; [|unfold msgs_sent; apply Forall_app; split; assumption].
+    intros id st Hin. cbn [streams] in Hin. now apply (H4 id).
+  - intros id st Hin. now apply (Hp H2 id).
 Qed.
 
 Definition ev_ok (S : list chunk) (e : revent) : Prop :=
